@@ -195,7 +195,7 @@ pub fn session_store_cookie(out: &ConnOutcome) -> Option<Vec<u8>> {
 }
 
 pub fn gen_name(rng: &mut Rng) -> String {
-    let pool = ["Steve", "Alex", "Notch", "jeb_", "Dinnerbone", "x", "Player_16_chars_", "Ünï"];
+    let pool = ["Steve", "Alex", "Notch", "jeb_", "Dinnerbone", "x", "Player_16_chars_", "Ünï", "linked.SomeLongPlayerName", "A_name_well_beyond_the_sixteen_characters_of_vanilla"];
     (*rng.pick(&pool)).to_string()
 }
 
@@ -204,12 +204,21 @@ pub fn gen_uuid(rng: &mut Rng) -> u128 {
 }
 
 pub fn gen_props(rng: &mut Rng) -> Vec<PropSpec> {
-    let n = *rng.pick(&[0usize, 0, 1, 2, 5]);
+    let mut n = *rng.pick(&[0usize, 0, 1, 2, 5]);
+    // real profiles are big: a textures property is 1-3 KB of base64 with a 684-character signature
+    // (kept below the default maximum frame of 10 000 bytes, so that a cookie carrying them can be presented)
+    let big = rng.chance(1, 6);
+    if big {
+        n = n.min(3);
+    }
     (0..n)
-        .map(|i| PropSpec {
-            name: if i == 0 { "textures".into() } else { format!("p{i}") },
-            value: crate::world::hex(&rng.bytes(*[4usize, 20, 60].get(i % 3).unwrap())),
-            signature: if rng.chance(1, 2) { Some(crate::world::hex(&rng.bytes(16))) } else { None },
+        .map(|i| {
+            let vlen = if big { *rng.pick(&[500usize, 700, 900]) } else { *[4usize, 20, 60].get(i % 3).unwrap() };
+            PropSpec {
+                name: if i == 0 { "textures".into() } else { format!("p{i}") },
+                value: crate::world::hex(&rng.bytes(vlen)),
+                signature: if rng.chance(1, 2) { Some(crate::world::hex(&rng.bytes(if big { 342 } else { 16 }))) } else { None },
+            }
         })
         .collect()
 }
@@ -300,6 +309,9 @@ pub fn zero_time_noise(rng: &mut Rng, sc: &mut ConnScenario) {
         }
     }
     sc.client.coalesce = rng.chance(2, 3);
+    if rng.chance(1, 8) {
+        sc.client.len_pad = rng.range(1, 3) as u8;
+    }
     if rng.chance(1, 2) {
         for _ in 0..rng.range(1, 10) {
             sc.wplan.push(match rng.below(4) {
